@@ -18,7 +18,7 @@ def chk(pid, engine, cat, text, note, technique, ref, thorough=True):
 
 chk("C01", "treemc", "model_checking",
     "Bounded-exhaustive enumeration of every tree x path x lookup operation x resolver flag x backend in a stated small scope; a reference model of in-root resolution is run on every case, validated case-by-case against the running kernel's openat2(RESOLVE_IN_ROOT) and then both libpathrs backends are compared with it; containment is checked independently against a snapshot of the tree.",
-    "Trusts the running kernel's openat2 as the definition of in-root resolution; kernel-without-openat2 simulated by seccomp ENOSYS; small-scope hypothesis (names a,b, depth 2, listed link bodies, paths <=2/3 components).",
+    "Trusts the running kernel's openat2 as the definition of in-root resolution; kernel-without-openat2 simulated by seccomp (ENOSYS, and EPERM for the old-seccomp-profile feature set); small-scope hypothesis (names a,b, depth 2, listed link bodies, paths <=2/3 components, plus the listed special trees, root placements and non-root callers).",
     "explicit enumeration of a finite input space + reference model with trace conformance against kernel and implementation", "DESIGN.md 4/C01")
 
 SYS_NOTE = "Trusts ptrace syscall stops as the complete interface between libpathrs and the world (no vDSO-only or io_uring paths are used by the library); schedules/faults are explored at syscall boundaries only; races inside one syscall are the kernel's. Kernel-without-X simulated by ENOSYS."
@@ -30,7 +30,7 @@ chk("C03", "sysmc", "model_checking",
     "Same explorer as C02 over every mutating operation (create x types, create_file, mkdir_all, remove_*, rename, links): all attacker schedules up to the bound, plus a bounded-exhaustive sweep of argument spellings ('.', '..', absolute, through links pointing outside). Oracles: every mutating/opening syscall's directory descriptor must be an ever-inside inode, and whole-filesystem snapshots of the jail show that no never-inside object was removed/modified and nothing was created in a never-inside directory.",
     SYS_NOTE, "deviation-bounded exhaustive schedule enumeration + exhaustive input sweep, syscall-level and snapshot oracles", "DESIGN.md 4/C03")
 chk("C05", "sysmc", "exploration",
-    "Every system call of every execution of a covering family (all operations, both backends, warm and cold lazies, with and without the new mount API, Rust and C entry points, success and error paths) is decoded under ptrace and checked against an allow-list automaton (single component + dirfd + no-follow; openat2 only with the confining resolve flags; follow only for a trailing procfs link in reopen/open_follow; O_CLOEXEC everywhere; O_NOCTTY unless O_PATH/O_DIRECTORY).",
+    "Every system call of every execution of a covering family (all operations, both backends, warm and cold lazies, with and without the new mount API, an old seccomp profile answering EPERM, Rust and C entry points, success and error paths - including executions disturbed by one injected errno at every syscall boundary and by one attacker mutation at every tree-relevant boundary) is decoded under ptrace and checked against an allow-list automaton (single component + dirfd + no-follow; openat2 only with the confining resolve flags; follow only for a trailing procfs link in reopen/open_follow; O_CLOEXEC everywhere; O_NOCTTY unless O_PATH/O_DIRECTORY).",
     SYS_NOTE + " The covering family is finite and listed in the evidence; a call site never exercised by it is not judged.",
     "exhaustive per-transition invariant checking over enumerated executions (syscall-trace automaton)", "DESIGN.md 4/C05")
 chk("C10", "sysmc", "fault_enumeration",
